@@ -474,6 +474,47 @@ def extract_reg(docs, g, notes):
         notes.append("thread_local cache: tls=%s init=%s entry points %r" % (tls, init_ok, entry))
 
 
+def macros_of(path):
+    """#define lines of a file with the conditional they sit under"""
+    out, stack = {}, []
+    for ln in open(path, errors="replace"):
+        t = ln.strip()
+        if t.startswith("#if"):
+            stack.append(t[1:])
+        elif t.startswith("#else") and stack:
+            stack[-1] = "else of " + stack[-1]
+        elif t.startswith("#endif") and stack:
+            stack.pop()
+        elif t.startswith("#define"):
+            m = re.match(r"#define\s+(\w+(?:\([^)]*\))?)\s*(.*)$", t)
+            if m:
+                out["macro %s => %s%s [%s]" % (m.group(1), m.group(2).strip() or "<nothing>", "", os.path.basename(path)
+                                              + (", under " + " / ".join(stack) if stack else ""))] = {"kind": "macro"}
+    return out
+
+
+def inventory(repo, work):
+    """every declaration of utility/SaveImage.h (the write* functions, templates, instantiations, specializations) and of
+    tracing/Tracing.{h,cpp} (classes with all members incl. implicit special members, enum, namespace-level functions, macros)"""
+    inv = {}
+    docs = sxast.dump(repo, work, '#include "rkcommon/utility/SaveImage.h"\n', "rkcommon::utility::write", "c20_inv_img")
+    inv.update(sxast.inventory(docs, functions=lambda n: True))
+    tr_src = ('#include "rkcommon/tracing/Tracing.cpp"\n#include <utility>\nnamespace c20inv { using namespace rkcommon::tracing;\n'
+              'inline void use(TraceEvent &a, ThreadEventList &l) { TraceEvent b(a); TraceEvent c(std::move(a)); b = c; b = std::move(c);\n'
+              '  ThreadEventList m(l); ThreadEventList n(std::move(l)); m = n; m = std::move(n); TraceRecorder r; (void)r; } }\n')
+    docs = sxast.dump(repo, work, tr_src, "rkcommon::tracing::", "c20_inv_tr")
+    inv.update(sxast.inventory(docs, classes=("TraceEvent", "ThreadEventList", "TraceRecorder"), functions=lambda n: True))
+    for d in docs:
+        if d.get("kind") == "EnumDecl":
+            inv["enum %s {%s}" % (d.get("name"), ", ".join(c.get("name") for c in inner(d) if c.get("kind") == "EnumConstantDecl"))] = {"kind": "enum"}
+        if d.get("kind") == "VarDecl" and not d.get("isImplicit") and d.get("name") in ("traceRecorder", "threadEventList") or \
+                (d.get("kind") == "VarDecl" and d.get("storageClass") == "static" and (d.get("type") or {}).get("qualType", "").find("rkcommon::tracing") >= 0):
+            inv["variable %s %s%s" % (d.get("name"), (d.get("type") or {}).get("qualType", ""), " thread_local" if d.get("tls") else "")] = {"kind": "var"}
+    inv.update(macros_of(os.path.join(repo, "rkcommon/tracing/Tracing.h")))
+    inv.update(macros_of(os.path.join(repo, "rkcommon/tracing/Tracing.cpp")))
+    return inv
+
+
 # ------------------------------------------------------------------ output
 def cb(b):
     return "true" if b else "false"
